@@ -1368,6 +1368,9 @@ class Engine:
             elif isinstance(v, tuple):
                 for x in v:
                     reach(x)
+            elif isinstance(v, VRec):
+                for x in v.fields.values():
+                    reach(x)       # mutable objects held by an (immutable) record
         for gv in getattr(self, "spec_locals", {}).values():
             reach(gv)       # ghost variables of the contract (ghost_init) are the spec's own
         for path in c.modifies:
